@@ -74,8 +74,7 @@
    links and the target names have been determined and persisted.  Nothing else depends on the mode: the grid bounds
    and block locators are rewritten by every completed call in both modes.
 
-   NOT MODELLED  AxialExpansionChanger.expandColdDimsToHot / applyColdHeightMassIncrease / manageCoreMesh (core
-   construction and core-wide mesh), explicit targets naming a fluid or missing component, a block flagged DUMMY
+   NOT MODELLED  AxialExpansionChanger.expandColdDimsToHot / applyColdHeightMassIncrease (core construction), explicit targets naming a fluid or missing component, a block flagged DUMMY
    below the top, radial dimensions (C03).
 
    CONFIGURATIONS (AxialExpansion_mc.tla holds the design sets)
@@ -84,6 +83,8 @@
      _emit / _emit_thorough  every distinct state printed as (design, calls, observation) for the replay on armi
      _cases / _cases_thorough  one call on every 1-/2-block stack of the block catalogue: target choice, links, refusals
      _trace                  batch validation of histories recorded from armi
+     CoreMesh*.tla/.cfg      the core level: this assembly as reference assembly of a core, calls interleaved with
+                             manageCoreMesh (uniform-mesh snap of the follower assemblies) -- see CoreMesh.tla
 *)
 EXTENDS RationalX, TLC, Json
 
